@@ -7,9 +7,11 @@ package interp
 
 import (
 	"bufio"
+	"context"
 	"fmt"
 	"io"
 	"math"
+	"os"
 	"os/exec"
 	"strconv"
 	"strings"
@@ -37,6 +39,8 @@ type solver struct {
 	wall                   time.Duration
 	errors                 []string
 	curTimeout             int
+	cvc5Path               string
+	nStandalone            int
 }
 
 func newSolver(path string, kind solverKind, transcript io.Writer) (*solver, error) {
@@ -459,4 +463,178 @@ func decodeValue(s Sort, x *sexp) (uint64, error) {
 		return 0, fmt.Errorf("bad fp value")
 	}
 	return 0, fmt.Errorf("bad sort")
+}
+
+// ---- standalone (non-incremental) queries -------------------------------------
+//
+// z3's incremental core is much slower on floating-point goals than its
+// one-shot tactic pipeline (measured: 19 s vs > 60 s on the round() equivalence;
+// cvc5 4.5 s). Queries that involve FP terms are therefore written out as a
+// complete script and given to fresh z3 and cvc5 processes in parallel; the
+// first definitive answer wins. Disagreement is impossible to observe this way,
+// so the thorough tier can ask for both answers (crossCheck).
+
+type standaloneResult struct {
+	res    string
+	vals   map[string]uint64
+	solver string
+}
+
+func (s *solver) script(pc []*Term, extra *Term, vars []*Term, forCVC5 bool) string {
+	var sb strings.Builder
+	if forCVC5 {
+		sb.WriteString("(set-logic ALL)\n(set-option :produce-models true)\n")
+	}
+	defined := map[int]bool{}
+	var emit func(t *Term)
+	emit = func(root *Term) {
+		type item struct {
+			t    *Term
+			done bool
+		}
+		stack := []item{{root, false}}
+		for len(stack) > 0 {
+			it := stack[len(stack)-1]
+			stack = stack[:len(stack)-1]
+			if defined[it.t.id] || it.t.isConst() {
+				continue
+			}
+			if it.t.op == opVar {
+				fmt.Fprintf(&sb, "(declare-const %s %s)\n", it.t.name, it.t.sort)
+				defined[it.t.id] = true
+				continue
+			}
+			if !it.done {
+				stack = append(stack, item{it.t, true})
+				for _, a := range it.t.args {
+					if !defined[a.id] && !a.isConst() {
+						stack = append(stack, item{a, false})
+					}
+				}
+				continue
+			}
+			fmt.Fprintf(&sb, "(define-fun %s () %s %s)\n", s.name(it.t), it.t.sort, it.t.render(s.argName))
+			defined[it.t.id] = true
+		}
+	}
+	for _, c := range pc {
+		emit(c)
+		fmt.Fprintf(&sb, "(assert %s)\n", s.argName(c))
+	}
+	if extra != nil {
+		emit(extra)
+		fmt.Fprintf(&sb, "(assert %s)\n", s.argName(extra))
+	}
+	for _, v := range vars {
+		emit(v)
+	}
+	sb.WriteString("(check-sat)\n")
+	if len(vars) > 0 {
+		sb.WriteString("(get-value (")
+		for k, v := range vars {
+			if k > 0 {
+				sb.WriteByte(' ')
+			}
+			sb.WriteString(s.name(v))
+		}
+		sb.WriteString("))\n")
+	}
+	return sb.String()
+}
+
+func runOneShot(path string, args []string, script string, timeout time.Duration, vars []*Term, nameOf func(*Term) string) standaloneResult {
+	f, err := os.CreateTemp("", "symgo-q-*.smt2")
+	if err != nil {
+		return standaloneResult{res: "unknown"}
+	}
+	defer os.Remove(f.Name())
+	f.WriteString(script)
+	f.Close()
+	ctx, cancel := context.WithTimeout(context.Background(), timeout)
+	defer cancel()
+	cmd := exec.CommandContext(ctx, path, append(args, f.Name())...)
+	out, _ := cmd.Output()
+	text := string(out)
+	lines := strings.SplitN(text, "\n", 2)
+	first := strings.TrimSpace(lines[0])
+	if strings.Contains(text, "(error") && first != "sat" && first != "unsat" {
+		return standaloneResult{res: "unknown"}
+	}
+	switch first {
+	case "unsat":
+		if strings.Contains(text, "(error") && !strings.Contains(lines[len(lines)-1], "model is not available") {
+			return standaloneResult{res: "unknown"}
+		}
+		return standaloneResult{res: "unsat"}
+	case "sat":
+		r := standaloneResult{res: "sat", vals: map[string]uint64{}}
+		if len(vars) > 0 && len(lines) > 1 {
+			toks := tokenize(lines[1])
+			pos := 0
+			sx, err := parseSexp(toks, &pos)
+			if err != nil {
+				return standaloneResult{res: "unknown"}
+			}
+			byName := map[string]*Term{}
+			for _, v := range vars {
+				byName[nameOf(v)] = v
+			}
+			for _, pair := range sx.list {
+				if len(pair.list) != 2 {
+					continue
+				}
+				v, ok := byName[pair.list[0].atom]
+				if !ok {
+					continue
+				}
+				bits, err := decodeValue(v.sort, pair.list[1])
+				if err != nil {
+					return standaloneResult{res: "unknown"}
+				}
+				r.vals[v.name] = bits
+			}
+		}
+		return r
+	}
+	return standaloneResult{res: "unknown"}
+}
+
+// standalone decides pc ∧ extra with fresh solver processes.
+func (s *solver) standalone(pc []*Term, extra *Term, vars []*Term, timeoutMs int) standaloneResult {
+	start := time.Now()
+	defer func() { s.wall += time.Since(start) }()
+	to := time.Duration(timeoutMs) * time.Millisecond
+	ch := make(chan standaloneResult, 2)
+	go func() {
+		r := runOneShot(s.path, []string{fmt.Sprintf("-T:%d", (timeoutMs+999)/1000)}, s.script(pc, extra, vars, false), to+2*time.Second, vars, s.name)
+		r.solver = "z3"
+		ch <- r
+	}()
+	n := 1
+	if s.cvc5Path != "" {
+		n = 2
+		go func() {
+			r := runOneShot(s.cvc5Path, []string{"--fp-exp", fmt.Sprintf("--tlimit=%d", timeoutMs)}, s.script(pc, extra, vars, true), to+2*time.Second, vars, s.name)
+			r.solver = "cvc5"
+			ch <- r
+		}()
+	}
+	res := standaloneResult{res: "unknown"}
+	for k := 0; k < n; k++ {
+		r := <-ch
+		if r.res == "sat" || r.res == "unsat" {
+			res = r
+			break
+		}
+	}
+	switch res.res {
+	case "sat":
+		s.nSat++
+	case "unsat":
+		s.nUnsat++
+	default:
+		s.nUnknown++
+	}
+	s.nStandalone++
+	return res
 }
